@@ -95,7 +95,6 @@ impl From<ActorError> for DynErr { #[verifier::external_body] fn from(e: ActorEr
 
 // restart_strategy.rs: the trait every strategy is proved against (C07). `kind()` is the specification-side name of
 // what the statement promises for that strategy; the implementations' bodies are extracted from /repo.
-pub enum Kind { Ignore, Same, Fresh }
 pub trait RestartStrategy<A: Actor> {
     spec fn kind() -> Kind;
     fn refresh(actor: A, ctx: &mut Context<A>, Tracked(w): Tracked<&mut World>) -> (r: DynResult<A>)
